@@ -319,8 +319,36 @@ func (e *Exec) roundReal(x *Term, w int, constArgs bool) *Term {
 		eta = new(big.Rat).SetFrac(big.NewInt(1), new(big.Int).Lsh(big.NewInt(1), 1075))
 	}
 	zero := e.B.RealConst(new(big.Rat))
-	abs := e.B.Ite(e.B.RCmp(ORLe, zero, x), x, e.B.RNeg(x))
-	bound := e.B.RBin(ORAdd, e.B.RBin(ORMul, e.B.RealConst(u), abs), e.B.RealConst(eta))
+	// resolve |x| statically where the interval of x allows it
+	if e.ivMemo == nil {
+		e.ivMemo = map[int]ival{}
+	}
+	iv := e.interval(x, e.ivMemo)
+	var bound *Term
+	uf, _ := u.Float64()
+	etaf, _ := eta.Float64()
+	switch {
+	case iv.lo >= 0:
+		bound = e.B.RBin(ORAdd, e.B.RBin(ORMul, e.B.RealConst(u), x), e.B.RealConst(eta))
+	case iv.hi <= 0:
+		bound = e.B.RBin(ORAdd, e.B.RBin(ORMul, e.B.RealConst(u), e.B.RNeg(x)), e.B.RealConst(eta))
+	case !math.IsInf(iv.lo, 0) && !math.IsInf(iv.hi, 0):
+		// sign ambiguous: constant bound u*max|x| + eta (over-approximation)
+		m := math.Max(-iv.lo, iv.hi)
+		bound = e.B.RealFromFloat(math.Nextafter(uf*m*(1+1e-12)+etaf, math.Inf(1)))
+	default:
+		abs := e.B.Ite(e.B.RCmp(ORLe, zero, x), x, e.B.RNeg(x))
+		bound = e.B.RBin(ORAdd, e.B.RBin(ORMul, e.B.RealConst(u), abs), e.B.RealConst(eta))
+	}
+	// interval of the error variable itself
+	if !math.IsInf(iv.lo, 0) && !math.IsInf(iv.hi, 0) {
+		m := math.Max(math.Abs(iv.lo), math.Abs(iv.hi))
+		bnd := math.Nextafter(uf*m*(1+1e-12)+etaf, math.Inf(1))
+		if e.varBounds == nil {
+			e.varBounds = map[int]ival{}
+		}
+		e.varBounds[er.ID] = ival{-bnd, bnd}
+	}
 	e.assumeDef(e.B.And(e.B.RCmp(ORLe, e.B.RNeg(bound), er), e.B.RCmp(ORLe, er, bound)))
 	res := e.B.RBin(ORAdd, x, er)
 	if e.Cfg.MonotoneRounding {
